@@ -10,6 +10,9 @@ KS_NOTE = ("Trusted: TLC, the transcription of the Redis command reference in sp
            "(memdb/verif_inspect.go). B1 is exhaustive only within the instance bounds; B2 is sampled.")
 
 CHECKS = {
+    "C03": dict(cat="model_checking", ref="§C03", technique="the TLC transition tables of every keyspace instance replayed at the wire level (pipelined batches through Manager.Handle, CR LF payload substitution, independent RESP decoder); random programmes pipelined over net.Pipe and TCP with PING-nonce alignment, validated by TraceKs.tla",
+                text="For every branch label of every family's bounded model, setup + path + command are written as one pipelined batch into the real connection handler and the reply stream must split into exactly one well-formed reply per command with the expected content, with CR LF inside every payload position; random programmes are pipelined in random batch sizes and write chunks through Manager.Handle and to the real binary over TCP, each command followed by PING <nonce> whose echo pins count and order.",
+                note="Trusted: harness/respcodec (independent decoder), TLC/TraceKs.tla for content. Only count/decodability/alignment/nil-result failures are C03 verdicts; content mismatches are left to the family properties. Pub/Sub pushes are outside (C19)."),
     "C01": dict(cat="model_checking", ref="§C01", technique="TLA+ reference model (KsString.tla, KsKeys.tla, Glob.tla) + TLC; B1 edge tours (case-twin keys, CR LF / empty values, 64-bit and exact-decimal arithmetic instance); B2 TLC trace validation of random string and key programmes",
                 text="Every transition of two bounded instances (string/generic-key commands over keys k/K/l with values incl. empty and CR LF and every option combination; a numeric instance with int64 extremes and exact decimals) is replayed on the real executors with comparison of reply and stored state; random programmes with binary payloads are validated by TLC against the same spec.",
                 note=KS_NOTE),
